@@ -3628,6 +3628,8 @@ def to_base(lhs, rhs, ctx):
         rhs = iterable(rhs, ctx=ctx)
     if len(rhs) == 1:
         maximal_exponent = lhs
+    elif lhs == 0:
+        maximal_exponent = 0
     else:
         maximal_exponent = int(log_mold_multi(lhs, len(rhs), ctx))
 
